@@ -50,46 +50,53 @@ fn check_untouched(label: &str, got: &P, init: &P, def: (bool, bool), empty: boo
 }
 
 
-/// Family on `P2` (documented / attributed markers, Lerp-able un-marked fields), driven through
-/// `keyframe_from` (which copies whole values) and explicit setters: the un-marked fields must keep
-/// their bits at every time of every timing configuration.
-fn p2_family(acc: &mut Acc) {
-    let vals = [P2 { a: 10.0, k: 20, z: 30.0, w: 40 }, P2 { a: -5.0, k: -6, z: -7.0, w: 8 }];
-    let targets = [P2 { a: 1.5, k: 2, z: f32::from_bits(0x7fc0_0bad), w: 77 }, P2 { a: 0.0, k: 0, z: 3.25, w: 1 }];
-    let positions = [0.0f32, 0.5, 1.0];
-    for th in theta() {
-        for (vi, v) in vals.iter().enumerate() {
-            for mask in 1..8u32 {
-                // keyframes at the selected positions, alternating keyframe_from and explicit setters
-                let mut b = P2::timeline().duration_seconds(th.cycle).delay_seconds(th.delay).repeat(th.rep.real()).reverse(th.reverse);
-                for (pi, &pos) in positions.iter().enumerate() {
-                    if mask & (1 << pi) != 0 {
-                        b = if (pi + vi) % 2 == 0 { b.keyframe(P2::keyframe_from(v, pos)) } else { b.keyframe(P2::keyframe(pos).a(v.a * 2.0).k(v.k * 2)) };
-                    }
-                }
-                let tl = b.build();
-                let mut tls = tl.clone();
-                tls.start_with(&vals[1 - vi]);
-                acc.timelines += 2;
-                for tlx in [&tl, &tls] {
-                    for init in &targets {
-                        for t in tau(&th, 16) {
-                            let mut got = init.clone();
-                            tlx.update(&mut got, t);
-                            acc.evals += 1;
-                            acc.field_checks += 2;
-                            if got.z.to_bits() != init.z.to_bits() || got.w != init.w {
-                                acc.sink.add("p2:field-without-animate-attribute", mask as u64, || {
-                                    (format!("t={t}: un-marked fields of P2 changed: z {} -> {}, w {} -> {} (keyframes via keyframe_from / setters, mask {mask})", init.z, got.z, init.w, got.w), json!({"struct": "P2 { /// doc #[animate] a: f32, #[allow(dead_code)] #[animate] k: i32, /// doc z: f32, w: u8 }", "timing": th.to_json(), "time": fj(t)}))
-                                });
+/// Family on `P2` (documented / attributed markers, Lerp-able un-marked fields) and on the remote proxy
+/// `R3Proxy` -> `R3` (markers on some fields only), driven through `keyframe_from` (which copies whole
+/// values) and explicit setters: the un-marked fields must keep their bits at every time of every timing
+/// configuration.
+macro_rules! marked_family {
+    ($fname:ident, $api:ident, $val:ident, $sig:expr, $decl:expr) => {
+        fn $fname(acc: &mut Acc) {
+            let vals = [$val { a: 10.0, k: 20, z: 30.0, w: 40 }, $val { a: -5.0, k: -6, z: -7.0, w: 8 }];
+            let targets = [$val { a: 1.5, k: 2, z: f32::from_bits(0x7fc0_0bad), w: 77 }, $val { a: 0.0, k: 0, z: 3.25, w: 1 }];
+            let positions = [0.0f32, 0.5, 1.0];
+            for th in theta() {
+                for (vi, v) in vals.iter().enumerate() {
+                    for mask in 1..8u32 {
+                        // keyframes at the selected positions, alternating keyframe_from and explicit setters
+                        let mut b = $api::timeline().duration_seconds(th.cycle).delay_seconds(th.delay).repeat(th.rep.real()).reverse(th.reverse);
+                        for (pi, &pos) in positions.iter().enumerate() {
+                            if mask & (1 << pi) != 0 {
+                                b = if (pi + vi) % 2 == 0 { b.keyframe($api::keyframe_from(v, pos)) } else { b.keyframe($api::keyframe(pos).a(v.a * 2.0).k(v.k * 2)) };
+                            }
+                        }
+                        let tl = b.build();
+                        let mut tls = tl.clone();
+                        tls.start_with(&vals[1 - vi]);
+                        acc.timelines += 2;
+                        for tlx in [&tl, &tls] {
+                            for init in &targets {
+                                for t in tau(&th, 16) {
+                                    let mut got = init.clone();
+                                    tlx.update(&mut got, t);
+                                    acc.evals += 1;
+                                    acc.field_checks += 2;
+                                    if got.z.to_bits() != init.z.to_bits() || got.w != init.w {
+                                        acc.sink.add($sig, mask as u64, || {
+                                            (format!("t={t}: un-marked fields changed: z {} -> {}, w {} -> {} (keyframes via keyframe_from / setters, mask {mask})", init.z, got.z, init.w, got.w), json!({"struct": $decl, "timing": th.to_json(), "time": fj(t)}))
+                                        });
+                                    }
+                                }
                             }
                         }
                     }
                 }
             }
         }
-    }
+    };
 }
+marked_family!(p2_family, P2, P2, "p2:field-without-animate-attribute", "P2 { /// doc #[animate] a: f32, #[allow(dead_code)] #[animate] k: i32, /// doc z: f32, w: u8 }");
+marked_family!(r3_family, R3Proxy, R3, "remote-proxy:field-without-animate-attribute", "#[animate(remote = \"R3\")] R3Proxy { #[animate] a: f32, #[animate] k: i32, z: f32, w: u8 }");
 
 pub fn run(run: Run) -> ! {
     let nmax = if run.is_thorough() { 4 } else { 3 };
@@ -180,6 +187,7 @@ pub fn run(run: Run) -> ! {
     acc.evals += macc.evals;
     acc.field_checks += macc.field_checks;
     p2_family(&mut acc);
+    r3_family(&mut acc);
     // empty merged list
     let empty: MergedTimeline<PTimeline> = MergedTimeline::of(Vec::<PTimeline>::new());
     for init in &tg {
@@ -196,10 +204,10 @@ pub fn run(run: Run) -> ! {
     cov.insert("traces_validated_against_impl".into(), json!(acc.evals));
     cov.insert("evaluations".into(), json!(acc.evals));
     cov.insert("distinct_nontrivial".into(), json!(acc.field_checks));
-    cov.insert("rule".into(), json!(format!("C01 keyframe space up to {nmax} keyframes x 6 timings x {{plain, start_with}} x 3 prior target contents (NaN-payload sentinels, ordinary values, Default) x time grid (all phases); plus all merged pairs T(<=2) x T(<=1) x 3 timing pairs, the empty merged list, and a second struct P2 (doc comments / #[allow] before the #[animate] markers, Lerp-able un-marked fields) driven through keyframe_from and setters; oracle: every field that no component keyframes (incl. the never-keyframed #[animate] field u, the f64 field d and the non-#[animate] field z; the whole struct for an empty keyframe set) is bit-identical after update; non-trivial = individual (evaluation, field) bit comparisons")));
+    cov.insert("rule".into(), json!(format!("C01 keyframe space up to {nmax} keyframes x 6 timings x {{plain, start_with}} x 3 prior target contents (NaN-payload sentinels, ordinary values, Default) x time grid (all phases); plus all merged pairs T(<=2) x T(<=1) x 3 timing pairs, the empty merged list, and a second struct P2 (doc comments / #[allow] before the #[animate] markers, Lerp-able un-marked fields) and a remote proxy R3Proxy -> R3 with markers on some fields only, both driven through keyframe_from and setters; oracle: every field that no component keyframes (incl. the never-keyframed #[animate] field u, the f64 field d and the non-#[animate] field z; the whole struct for an empty keyframe set) is bit-identical after update; non-trivial = individual (evaluation, field) bit comparisons")));
     cov.insert("exhaustive".into(), json!(true));
     cov.insert("samples".into(), json!(acc.samples));
-    run.finish(acc.sink, cov, vec!["struct shapes other than P are covered by the C17 generated family (run under C08 thorough)".into(), "animator histories are covered by the E2 explorer (C04-C07 run the same untouched-field oracle)".into()])
+    run.finish(acc.sink, cov, vec!["the full family of struct shapes is C17's (every compiled shape there asserts sentinels on its un-animated fields); here: P, P2 and the remote proxy R3Proxy".into(), "animator histories are covered by the E2 explorer (C04-C07 run the same untouched-field oracle)".into()])
 }
 
 pub fn replay(case: &Value) -> bool {
